@@ -7,6 +7,7 @@ Argument encodings: ints / strings / bools / None;
   {"cv": 5, "ctype": "int32"}                       C-typed scalar
   {"array": [[...]], "ctype": "int32", "memview": true}   1-d / 2-d array
   {"cell": 0, "ctype": "int32"}                     out-parameter (pointer)
+  {"dtype": "int32"}                                NumPy dtype object
 Output (one JSON line per call): outcome, value, final contents of array and
 cell arguments, failed safety obligations (out-of-bounds under
 boundscheck(False), signed overflow)."""
@@ -41,6 +42,9 @@ def to_value(v):
                 t = z3.Store(t, i, int(x))
         arr = SymArr("arg", v.get("ctype"), shape, arr=t)
         return arr.view(memview=True) if v.get("memview", True) else arr
+    if isinstance(v, dict) and "dtype" in v:
+        from .nplib import DType
+        return DType(v["dtype"])
     if isinstance(v, dict) and "cv" in v:
         return CV(v["ctype"], v["cv"])
     if isinstance(v, dict) and "cell" in v:
